@@ -31,7 +31,21 @@ pub enum Outcome {
 pub fn classify(e: RequestError) -> ErrClass {
     match e {
         RequestError::Io(k) => ErrClass::Io(format!("{k:?}")),
-        RequestError::Exception(x) => ErrClass::Exception(u8::from(x)),
+        // by name (the number table is written out here, the library's own is under test); an
+        // `Unknown(n)` carrying the number of a named code is reported as 0x100-proof nonsense: 0
+        RequestError::Exception(x) => ErrClass::Exception(match x {
+            ExceptionCode::IllegalFunction => 0x01,
+            ExceptionCode::IllegalDataAddress => 0x02,
+            ExceptionCode::IllegalDataValue => 0x03,
+            ExceptionCode::ServerDeviceFailure => 0x04,
+            ExceptionCode::Acknowledge => 0x05,
+            ExceptionCode::ServerDeviceBusy => 0x06,
+            ExceptionCode::MemoryParityError => 0x08,
+            ExceptionCode::GatewayPathUnavailable => 0x0A,
+            ExceptionCode::GatewayTargetDeviceFailedToRespond => 0x0B,
+            ExceptionCode::Unknown(n) if matches!(n, 1..=6 | 8 | 0x0A | 0x0B) => 0,
+            ExceptionCode::Unknown(n) => n,
+        }),
         RequestError::BadRequest(_) => ErrClass::BadRequest,
         RequestError::BadFrame(_) => ErrClass::BadFrame,
         RequestError::BadResponse(_) => ErrClass::BadResponse,
